@@ -287,7 +287,7 @@ class C11(World):
         hp_calls = 0
         for i in range(swarm["length"]):
             c = sched.randrange(swarm["clients"])
-            cand = [("svc", 6.0), ("clock", 10 * swarm["p_clock"]), ("mutate_own_dict", 0.35), ("mutate_result", 0.3)]
+            cand = [("svc", 6.0), ("clock", 10 * swarm["p_clock"]), ("mutate_own_dict", 0.35), ("mutate_result", 0.3), ("reextract", 0.4)]
             if swarm["wrappers"]:
                 cand += [("wload", 1.2 * swarm["wrappers"]), ("wrun", 0.3 * swarm["wrappers"])]
                 if n_wr:
@@ -319,6 +319,9 @@ class C11(World):
             elif op == "mutate_result":
                 # the caller edits a RESULT object it was handed (its own property now); later calls must not see that
                 st = dict(op="mutate_result", which=args.randrange(64), what=args.choice(["clear_targets", "scale_qh", "drop_graphs", "rename", "deep", "deep"]))
+            elif op == "reextract":
+                # the lower-level public hook extract_results() applied again to an analysed zone tree handed out earlier
+                st = dict(op="reextract", which=args.randrange(64))
             elif op == "mutate_own_dict":
                 # the caller edits ITS OWN reusable dictionary after a call returned (then puts it back): results already
                 # handed out must not follow, i.e. they may not alias the caller's lists / dicts
@@ -522,6 +525,30 @@ class C11(World):
                     if st["dt"] < 0 or st["dt"] >= 3600:
                         fault("clock_jump")
                     outcome = "ok"
+                elif op == "reextract":
+                    # candidates: zone trees returned by is_return_full_results=True, and the analysed trees of wrappers whose
+                    # result the caller has not edited
+                    cands = [(fz[0], fz[2], fz) for fz in full_zones] + [(r_["obj"].master_zone, r_["res_text"], None) for r_ in wrappers if r_.get("res_text") and not r_.get("edited") and r_["obj"].master_zone is not None]
+                    if not cands:
+                        outcome = "skip"
+                    else:
+                        zone_, text0, fz_ = cands[st["which"] % len(cands)]
+                        from OpenPinch.lib.schema import TargetOutput
+                        from OpenPinch.main import extract_results
+                        fpb = fp()
+                        kind, val = run_plain(lambda: TargetOutput.model_validate(extract_results(zone_)).model_dump_json())
+                        d = fp_diff(fpb, fp())
+                        tick("module_state")
+                        if d:
+                            V("module_state", d[0], step, f"module state differs after extract_results on an earlier zone tree: {d[:3]}")
+                        tick("earlier_results")
+                        if kind != "ok":
+                            V("earlier_results", "reextract_raises", step, f"extract_results on a zone tree returned earlier raised {type(val).__name__}: {str(val)[:120]}")
+                        elif val != text0:
+                            V("earlier_results", f"reextract|{diff_class(val, text0)}", step, "extract_results on a zone tree returned earlier no longer gives the result that was returned with it")
+                        probe("reextract")
+                        outcome = "ok:" + prng.digest(val if kind == "ok" else "raise")
+                        check_held(step, skip_last=False)
                 elif op == "mutate_result":
                     if not held:
                         outcome = "skip"
@@ -668,7 +695,7 @@ class C11(World):
                         # the documented second return shape: (TargetOutput, analysed zone tree)
                         def call():
                             out_, zone_ = pinch_analysis_service(data, project_name=name, is_return_full_results=True)
-                            full_zones.append([zone_, zone_digest(zone_)])
+                            full_zones.append([zone_, zone_digest(zone_), out_.model_dump_json()])
                             return out_
                         probe("full_results_requested")
                     else:
@@ -790,6 +817,7 @@ class C11(World):
                                 held.pop()
                             if kind == "ok" and rec.get("zone_digest") is None and w.master_zone is not None:
                                 rec["zone_digest"] = zone_digest(w.master_zone)
+                                rec["res_text"] = val.model_dump_json()
                             check_held(step)
                         else:
                             out_dir = os.path.join(scratch, f"out{st['w'] % len(wrappers)}")
@@ -828,6 +856,8 @@ class C11(World):
                             check_held(step, skip_last=False)
                             if rec.get("zone_digest") is None and w.master_zone is not None:
                                 rec["zone_digest"] = zone_digest(w.master_zone)
+                                if w.results is not None:
+                                    rec["res_text"] = w.results.model_dump_json()
                         if rec.get("filebytes") is not None:
                             tick("input_unchanged")
                             if open(rec["src"], "rb").read() != rec["filebytes"]:
